@@ -8,10 +8,10 @@ pub fn prop() -> Prop {
     Prop {
         id: "C06",
         level: "model_checking",
-        rule: "clean streams of <=2 (thorough <=3) values over a 6-value core x 5 separator kinds (space, LF, tab, CRLF, touching) with k=0,1 (thorough 2) whitespace-delimited noise tokens (all 1- and 2-byte tokens over the 16 bytes } ] , : . e E + x * 0x80 0xff NUL and the UTF-8 lead bytes 0xc3 0xe2 0xf0 - so tokens ending in a truncated multi-byte character and complete 2-byte characters occur) in every gap (before/between/after) x 4 policies x 6 pipelines (none, select, sort, unique, group, take); 3-value streams with 1-byte tokens; non-trivial = k>=1 and a value follows the noise; distinct by construction",
+        rule: "clean streams of <=2 (thorough <=3) values over a 6-value core x 5 separator kinds (space, LF, tab, CRLF, touching) with k=0,1 (thorough 2) whitespace-delimited noise tokens (all 1- and 2-byte tokens over the 16 bytes } ] , : . e E + x * 0x80 0xff NUL and the UTF-8 lead bytes 0xc3 0xe2 0xf0 - so tokens ending in a truncated multi-byte character and complete 2-byte characters occur) in every gap (before/between/after) x 4 policies x 6 pipelines (none, select, sort, unique, group, take); 3-value streams with 1-byte tokens; streams of 10..300 values with a noise token in EVERY gap, all on one line or one per line; non-trivial = k>=1 and a value follows the noise; distinct by construction",
         explanation: "differential against the run on the clean stream (and on the clean prefix for the panic policy), clause by clause as the property states; the reached-gap rule for --take follows the step-wise reference pipeline",
         assumptions: COMMON_ASSUMPTIONS.to_vec(),
-        guards: vec!["noise-before-value", "panic-policy-prefix", "clean-crlf", "non-utf8-noise", "error-line-on-stdout", "error-line-on-stderr"],
+        guards: vec!["many-noisy-regions-on-one-line", "noise-before-value", "panic-policy-prefix", "clean-crlf", "non-utf8-noise", "error-line-on-stdout", "error-line-on-stderr"],
         budget_s: (100, 2400),
         single_worker: false,
         run,
@@ -340,7 +340,45 @@ fn case_input(c: &Case) -> Vec<u8> {
     }
 }
 
+/// many noisy gaps on ONE physical line (and on separate lines): every region still gets its report
+fn many_regions(ctx: &mut Ctx) {
+    for n in [10usize, 33, 64, 65, 66, 130, 300] {
+        for sk in [0usize, 1] {
+            if !ctx.mine() {
+                continue;
+            }
+            let vals: Vec<&str> = (0..n).map(|i| CORE[i % CORE.len()]).collect();
+            let noise: Vec<(usize, Vec<u8>)> = (0..=n).map(|g| (g, vec![NOISE[g % 10], NOISE[(g / 10) % 10]])).collect();
+            let clean_in = build(&vals, sk, &[]);
+            let input = build(&vals, sk, &noise);
+            let gaps: Vec<usize> = (0..=n).collect();
+            for pipe in [&PIPES[0], &PIPES[1], &PIPES[3]] {
+                for policy in POLICIES {
+                    let args = args_for(policy, pipe);
+                    let clean_case = Case::owned(args.clone(), clean_in.clone());
+                    let clean = ctx.run(&clean_case);
+                    let prefix = ctx.run(&Case::owned(args.clone(), Vec::new()));
+                    let case = Case::owned(args.clone(), input.clone());
+                    let got = ctx.run(&case);
+                    ctx.case_done();
+                    ctx.trace_validated();
+                    ctx.nontrivial();
+                    ctx.guard("many-noisy-regions-on-one-line");
+                    if let Some(fl) = oracle(policy, pipe, n, &gaps, &clean, Some(&prefix), &got) {
+                        ctx.outcome(&fl.clause);
+                        ctx.violation(&fl.clause, &format!("pipeline {} separator {} {} noisy gaps in one stream", pipe.name, SEPS[sk].0, n + 1), &[case.clone(), clean_case.clone()], crate::drive::trunc(&fl.expected, 200), crate::drive::trunc(&fl.actual, 300));
+                    } else {
+                        ctx.outcome(&format!("ok-{policy}"));
+                    }
+                }
+            }
+        }
+    }
+    ctx.level_done("many-noisy-regions(10..301)-on-one-line-and-on-separate-lines");
+}
+
 fn run(ctx: &mut Ctx) {
+    many_regions(ctx);
     let t2 = tokens(true);
     let t1 = tokens(false);
     let (full_len, short_len, kmax) = match ctx.tier {
